@@ -888,10 +888,11 @@ func TestVP_C05_Request(t *testing.T) {
 			if !c.explicitCL && !c.framingTrick {
 				teOn10 := len(m.te) > 0 && !hr.ProtoAtLeast(1, 1)
 				body, rerr := io.ReadAll(hr.Body)
-				if !teOn10 {
-					if rerr != nil {
-						t.Fatalf("C05 request: net/http cannot read the body: %v\nops: %s\nwire: %q", rerr, strings.Join(c.log, "; "), w)
-					}
+				if rerr != nil {
+					// the peer rejects the message while reading body/trailers (e.g. NUL in a
+					// trailer value): a rejection, the own splitter has already checked the framing
+					vpExtra("c05_req_nethttp_rejects_in_body", 1)
+				} else if !teOn10 {
 					if !bytes.Equal(body, c.body) {
 						t.Fatalf("C05 request: net/http sees body %q, set body %q\nops: %s\nwire: %q", body, c.body, strings.Join(c.log, "; "), w)
 					}
@@ -1261,9 +1262,6 @@ func TestVP_C05_Response(t *testing.T) {
 			}
 			if !c.explicitCL && !c.framingTrick {
 				body, rerr := io.ReadAll(hr.Body)
-				if rerr != nil {
-					t.Fatalf("C05 response: net/http cannot read the body: %v\nops: %s\nwire: %q", rerr, strings.Join(c.log, "; "), w)
-				}
 				noBody := head || hr.StatusCode/100 == 1 || hr.StatusCode == 204 || hr.StatusCode == 304
 				if len(m.te) > 0 && !hr.ProtoAtLeast(1, 1) {
 					// net/http deliberately ignores Transfer-Encoding on HTTP/1.0 messages and reads
@@ -1271,17 +1269,22 @@ func TestVP_C05_Response(t *testing.T) {
 					noBody = true
 					vpExtra("c05_resp_chunked_on_http10", 1)
 				}
-				if !noBody && !bytes.Equal(body, c.body) {
-					t.Fatalf("C05 response: net/http sees body %q, set body %q\nops: %s\nwire: %q", body, c.body, strings.Join(c.log, "; "), w)
-				}
-				for k := range hr.Trailer {
-					if !c.nameAllowed([]byte(k)) {
-						t.Fatalf("C05 response: net/http sees trailer %q which was never set\nwire: %q", k, w)
+				if rerr != nil {
+					// rejection by the peer while reading body/trailers; framing was checked by the own splitter
+					vpExtra("c05_resp_nethttp_rejects_in_body", 1)
+				} else {
+					if !noBody && !bytes.Equal(body, c.body) {
+						t.Fatalf("C05 response: net/http sees body %q, set body %q\nops: %s\nwire: %q", body, c.body, strings.Join(c.log, "; "), w)
 					}
-				}
-				if _, perr := br.Peek(1); perr != io.EOF {
-					rest, _ := io.ReadAll(br)
-					t.Fatalf("C05 response: net/http finds bytes after the message (a second message): %q\nops: %s\nwire: %q", rest, strings.Join(c.log, "; "), w)
+					for k := range hr.Trailer {
+						if !c.nameAllowed([]byte(k)) {
+							t.Fatalf("C05 response: net/http sees trailer %q which was never set\nwire: %q", k, w)
+						}
+					}
+					if _, perr := br.Peek(1); perr != io.EOF {
+						rest, _ := io.ReadAll(br)
+						t.Fatalf("C05 response: net/http finds bytes after the message (a second message): %q\nops: %s\nwire: %q", rest, strings.Join(c.log, "; "), w)
+					}
 				}
 			}
 		}
